@@ -576,6 +576,70 @@ func runC20(c *ctx, r *Report) error {
 		}
 		os.RemoveAll(dir)
 	}
+	// (2b) "all of them have finished and been collected before results are returned" on the error paths of every entry
+	// point: ONE file with a bash step whose tool fails fatally at once and a python step whose tool is slow; through
+	// LintFile, LintFiles([one file]) and LintFiles([two files]) — no tool process may still be running at the return
+	{
+		dir := filepath.Join(tmp, "fatal-slow")
+		os.MkdirAll(dir, 0o755)
+		mkSrc := func(tag string) string {
+			return "on: push\njobs:\n  j:\n    runs-on: ubuntu-latest\n    steps:\n      - run: |\n          echo a\n          # id " + tag + "a STUB:garbage SLEEP:0\n      - shell: python\n        run: |\n          x = 1\n          # id " + tag + "b STUB:ok SLEEP:400\n      - shell: python\n        run: |\n          y = 2\n          # id " + tag + "c STUB:ok SLEEP:400\n"
+		}
+		p1, p2 := filepath.Join(dir, "one.yml"), filepath.Join(dir, "two.yml")
+		os.WriteFile(p1, []byte(mkSrc("1")), 0o644)
+		os.WriteFile(p2, []byte(mkSrc("2")), 0o644)
+		for _, mode := range []string{"LintFile", "LintFiles-1", "LintFiles-2"} {
+			logPath := filepath.Join(dir, "stub-"+mode+".log")
+			os.Remove(logPath)
+			os.Setenv("VERIF_STUB_LOG", logPath)
+			var out bytes.Buffer
+			l, err := actionlint.NewLinter(&out, &actionlint.LinterOptions{Shellcheck: stub + " --as-shellcheck", Pyflakes: stub + " --as-pyflakes", Color: actionlint.ColorOptionKindNever, Oneline: true})
+			if err != nil {
+				return err
+			}
+			var lerr error
+			pmsg, to := guarded(60*time.Second, func() {
+				switch mode {
+				case "LintFile":
+					_, lerr = l.LintFile(p1, nil)
+				case "LintFiles-1":
+					_, lerr = l.LintFiles([]string{p1}, nil)
+				default:
+					_, lerr = l.LintFiles([]string{p1, p2}, nil)
+				}
+			})
+			retTime := time.Now().UnixNano()
+			r.Evaluations++
+			cs := Case{Op: "lint-fatal-while-slow-tool-runs", Input: map[string]string{"entry_point": mode, "workflow": mkSrc("1")}}
+			if pmsg != "" || to {
+				cs.Note = pmsg
+				r.Crashes = append(r.Crashes, cs)
+				continue
+			}
+			r.nontrivial("fatal-slow:" + mode)
+			if lerr == nil {
+				r.finding("failure-not-fatal", "shellcheck printed non-JSON but "+mode+" returned no error", cs)
+			}
+			time.Sleep(700 * time.Millisecond) // stragglers (if any) finish and write their record
+			late := 0
+			if fh, err := os.Open(logPath); err == nil {
+				sc := bufio.NewScanner(fh)
+				sc.Buffer(make([]byte, 1<<20), 1<<24)
+				for sc.Scan() {
+					var rec stubRec
+					if json.Unmarshal(sc.Bytes(), &rec) == nil && rec.End > retTime {
+						late++
+					}
+				}
+				fh.Close()
+			}
+			r.hist(fmt.Sprintf("fatal-slow:%s:late=%d", mode, late))
+			if late > 0 {
+				r.finding("fatal-return-before-collected", fmt.Sprintf("%s returned its fatal error while %d tool process(es) were still running", mode, late), cs)
+			}
+		}
+		r.Rule += "; (2b) one file with a tool that fails fatally at once and a slow tool, through LintFile / LintFiles([1 file]) / LintFiles([2 files]): no tool process alive at the return"
+	}
 	// (3) outcome table: one invocation per (tool, output, termination); the observed outcome (fatal error / number of
 	// tool diagnostics) against the model's shellcheckCallback / pyflakesCallback on the same (outcome, stdout).
 	// no_silent_drop: a signalled tool, a tool that cannot be started, non-zero exit without output and (shellcheck)
